@@ -4,9 +4,12 @@ package main
 
 import (
 	"context"
+	"crypto"
 	"encoding/base64"
 	"encoding/json"
 	"fmt"
+	"io"
+	"log"
 	"os"
 	"strings"
 	"time"
@@ -18,7 +21,7 @@ import (
 	"verifharness/opfix"
 
 	"github.com/zitadel/oidc/v3/pkg/client/rp"
-	"github.com/zitadel/oidc/v3/pkg/crypto"
+	oidccrypto "github.com/zitadel/oidc/v3/pkg/crypto"
 	"github.com/zitadel/oidc/v3/pkg/oidc"
 	"github.com/zitadel/oidc/v3/pkg/op"
 )
@@ -202,7 +205,7 @@ func vkinds() []vkind {
 }
 
 func publicOf(priv any) any {
-	if p, ok := priv.(interface{ Public() any }); ok {
+	if p, ok := priv.(crypto.Signer); ok { // Public() crypto.PublicKey (a defined type: `interface{ Public() any }` does not match)
 		return p.Public()
 	}
 	return nil
@@ -387,7 +390,7 @@ func opaqueCases(w *emit.Writer, g *gen, n int) {
 		}
 		s := g.opaqueString(nc, m, other)
 		var err error
-		p := drv.Catch(func() { _, err = crypto.DecryptAES(s, key) })
+		p := drv.Catch(func() { _, err = oidccrypto.DecryptAES(s, key) })
 		tags := []string{"kind=opaque", fmt.Sprintf("chars=%d", nc), fmt.Sprintf("crlf=%d", m), fmt.Sprintf("other=%v", other != "")}
 		w.Add(emit.Case{
 			Input:    fmt.Sprintf("(IOpaque {| ot_chars := %d; ot_crlf := %d; ot_other := %s |})", nc, m, emit.Bool(other != "")),
@@ -423,6 +426,7 @@ func main() {
 		return
 	}
 	cfg := drv.Parse()
+	log.SetOutput(io.Discard) // the library logs forwarded-header parse errors through the standard logger
 	r := drv.NewRand(cfg.Seed)
 	w := emit.NewWriter(cfg.Out, "C09_spec", 0, cfg.Only)
 	total := cfg.Count(1900, 40000)
@@ -441,14 +445,18 @@ func main() {
 	exitCases(w, g, total*4/100)
 	codeCases(w, g, total*3/100)
 	hintCases(w, g, total*3/100)
+	bearerCases(w, g, total*4/100)
+	authCases(w, g, total*10/100)
+	forwardedCases(w, g, total*4/100)
 	routeCases(w, g, total*26/100)
 	clientCases(w, g, total*15/100)
+	chainCases(w, g, total*4/100)
 	ambiguous := deviceCases(w, g, max(12, total*15/1000))
 	opaqueCases(w, g, total*3/100)
 	userCodeCases(w, g, max(8, total/100))
 
 	err = w.Close(emit.Meta{Property: "C09", Tier: cfg.Tier, Seed: cfg.Seed,
-		Rule:  "seeded structured fuzz, no coverage guidance. decode: JSON ASTs (well-typed members + wrong-typed / null / huge / nested / duplicate members, invalid UTF-8) serialised by the harness and fed to json.Unmarshal of each library type; verify: JWTs (provider-signed, foreign, none, garbage) around those payloads plus null / scalar / array / truncated payloads, wrong segment counts, bad base64, on the six verifier entry points; handler: request shapes (entry x endpoint/grant x form ok x Basic header kind x main parameter x client_id x first storage call fails) on Provider router, LegacyServer router and directly called grant handlers; hint: id_token_hint tokens (issuer right / wrong, signature right / wrong, exp and iat absent / past / future) at end_session and authorize on both routers; code: redemption of a live code (public / confidential client x challenge stored or not x verifier none / right / wrong) on both routers; exit: valid authenticated revocation / introspection / userinfo requests whose k-th storage call fails (error or deadline); route: flow-first requests (a fresh code flow per case with random optional parts - challenge none / S256 / plain, nonce, state, scopes, max_age, zero auth time, empty amr / audience, not logged in -; live tokens / device codes approved, denied, pending) with mutations on every route x method x header x body of both routers, one third of them with an injected storage fault (k-th call or every call of one method, error or deadline); device: device authorization answer (interval absent / null / 0 / negative / 1 / 2 / huge / wrongly typed, expires_in likewise) then client.PollDeviceAccessTokenEndpoint against token answers (success, pending, slow_down, refusals, garbage) under a 300 ms deadline and a 10 s hang guard; opaque: crypto.DecryptAES on strings of n alphabet characters, m CR/LF and optionally a foreign character around the 16-byte / 22-character thresholds; client: provider answers (status x body AST / truncated) through a stub RoundTripper into the client helpers. Non-trivial = model path class != 0 (not: null document, wrong segment count, missing grant_type); distinct = distinct input term.",
+		Rule:  "seeded structured fuzz, no coverage guidance. decode: JSON ASTs (well-typed members + wrong-typed / null / huge / nested / duplicate members, invalid UTF-8) serialised by the harness and fed to json.Unmarshal of each library type; verify: JWTs (provider-signed, foreign, none, garbage) around those payloads plus null / scalar / array / truncated payloads, wrong segment counts, bad base64, on the six verifier entry points; handler: request shapes (entry x endpoint/grant x form ok x Basic header kind x main parameter x client_id x first storage call fails) on Provider router, LegacyServer router and directly called grant handlers; hint: id_token_hint tokens (issuer right / wrong, signature right / wrong, exp and iat absent / past / future) at end_session and authorize on both routers; code: redemption of a live code (public / confidential client x challenge stored or not x verifier none / right / wrong) on both routers; exit: valid authenticated revocation / introspection / userinfo requests whose k-th storage call fails (error or deadline); route: flow-first requests (a fresh code flow per case with random optional parts - challenge none / S256 / plain, nonce, state, scopes, max_age, zero auth time, empty amr / audience, not logged in -; live tokens / device codes approved, denied, pending) with mutations on every route x method x header x body of both routers, one third of them with an injected storage fault (k-th call or every call of one method, error or deadline); device: device authorization answer (interval absent / null / 0 / negative / 1 / 2 / huge / wrongly typed, expires_in likewise) then client.PollDeviceAccessTokenEndpoint against token answers (success, pending, slow_down, refusals, garbage) under a 300 ms deadline and a 10 s hang guard; opaque: crypto.DecryptAES on strings of n alphabet characters, m CR/LF and optionally a foreign character around the 16-byte / 22-character thresholds; client: provider answers (status x body AST / truncated) through a stub RoundTripper into the client helpers; bearer: GET /userinfo with an Authorization header built around a live token (non-UTF-8 bytes, runes whose case mapping changes the length, other scheme spellings, repeated / prefix-only schemes, junk after the token) on both routers, the token oracle asked through the form parameter; auth: otherwise valid requests with live artefacts on the eight endpoints that accept client credentials x router x private_key_jwt on / off x assertion type (jwt-bearer / absent / other) x assertion (absent / valid / failing before / at the key lookup) x Basic - the failing-assertion block enumerated first -, one third free-form (several transports at once from their own catalogues, any owner of the artefacts, a parameter missing; also endpoints without client authentication); route fuzz additionally with hostile values in every header the library reads, on three providers (static issuer, issuer from forwarding headers, private_key_jwt off); chain: composed relying-party / token-exchange / JWT-profile helpers and the callback handler (Cookie x query x token answer x userinfo answer x response headers such as Location) behind a path-routing stub. Non-trivial = model path class != 0 (not: null document, wrong segment count, missing grant_type); distinct = distinct input term.",
 		Extra: map[string]any{"router_fixture": "opfix.NewStd, all capabilities", "clock_ambiguous": ambiguous},
 	})
 	if err != nil {
